@@ -153,9 +153,9 @@ package fasthttp
 // ParseIPv4: memory safety, termination, and the result shape; each field goes through parseIPv4Octet
 // (whose contract pins acceptance and value). The dot-splitting as a whole is not restated here.
 //@ func ParseIPv4 results r err
-//@   property C31
+//@   property C31 C08
 //@   mode skeleton
-//@   safety C31
+//@   safety C31 C08
 //@   ghost octets int = 0
 //@   on call parseIPv4Octet -> o, p, e:
 //@     nohavoc
@@ -172,9 +172,9 @@ package fasthttp
 // An IPv6 address has eight 16-bit groups; a dotted-quad tail counts for two; `::` may appear once and stands for at
 // least one group (net/netip). validateIPv6Literal accepts only when the groups it counted obey that rule.
 //@ func validateIPv6Literal results err
-//@   property C31
+//@   property C31 C08
 //@   mode skeleton
-//@   safety C31
+//@   safety C31 C08
 //@   ghost g int = 0
 //@   ghost dbl bool = false
 //@   ghost two bool = false
